@@ -308,6 +308,8 @@ pub struct Dfir {
     pub text: String,
     /// for each line of `text` (0-based), the node whose operator is written on it
     pub line_node: Vec<Option<usize>>,
+    /// surface-syntax operator name of each IR node (for matching graph nodes to IR nodes)
+    pub node_names: std::collections::BTreeMap<usize, String>,
 }
 
 /// Operators whose generated code contains closures over a not-yet-inferred item type: on the push
@@ -386,7 +388,15 @@ pub fn dfir_text(p: &Prog) -> Result<Dfir, String> {
             }
         }
     }
-    Ok(Dfir { text, line_node })
+    let mut node_names = std::collections::BTreeMap::new();
+    for (i, n) in p.nodes.iter().enumerate() {
+        let name = match &n.op {
+            Op::RefMap { .. } => "map".to_string(),
+            op => op.name().to_string(),
+        };
+        node_names.insert(i, name);
+    }
+    Ok(Dfir { text, line_node, node_names })
 }
 
 /// Rust source of the module for one program.
